@@ -14,8 +14,8 @@ import (
 func init() {
 	register(Property{ID: "C15", Level: "other", Run: runC15,
 		Technique: "static analysis: field-set agreement between core.pathConfCanBeUpdated (hot-reloadable fields) and their consumers (path.doReloadConf, forward manager, rpicamera fromConf on linux/arm), must-pass-through path conditions and result-use rule on pathManager.doReloadConf (go/ssa + AST)",
-		Text: "Decides the reconciliation skeleton of one reload: (1) the set of fields pathConfCanBeUpdated copies (hot-reloadable) is exactly the set consumed in place - Forward by forwardManager.ReloadConf, the seven Record* fields by the recorder restart condition of path.doReloadConf (set equality), the RPICamera* fields by cameraParams.fromConf reached through Handler.ReloadConf and the camera run loop (linux/arm build) - so a hot-reloaded field is never silently ignored and nothing else is treated as hot-reloadable; (2) in pathManager.doReloadConf every live path is closed when its name no longer resolves, when the configuration cannot be updated in place, when it is in confsToRecreate, or when its capture groups changed - captureGroupsEqual is decided to be an exact equality on the groups (abstract interpretation of all its paths over the bounds of len(matches): true only if both sides have no groups or slices.Equal over m[1:] said so, false only if exactly one side has groups), is applied to pa.matches and the newly resolved groups, and its negative outcome closes the path; a path moved to another configuration gets confName updated before the reload is sent; the capture groups returned by FindPathConf for the new configuration are used (not discarded); pm.pathConfs is replaced before missing static paths are created; every static configuration without a live path is created. It does not decide reconciliation over arbitrary reload histories, nor which parameters the external camera process honours.",
-		Note: "trusted: conf.FindPathConf (C14), conf.Path.Equal; the rpicamera consumer exists only in the linux/arm build configuration and is analysed there"})
+		Text:      "Decides the reconciliation skeleton of one reload: (1) the set of fields pathConfCanBeUpdated copies (hot-reloadable) is exactly the set consumed in place - Forward by forwardManager.ReloadConf, the seven Record* fields by the recorder restart condition of path.doReloadConf (set equality), the RPICamera* fields by cameraParams.fromConf reached through Handler.ReloadConf and the camera run loop (linux/arm build) - so a hot-reloaded field is never silently ignored and nothing else is treated as hot-reloadable; (2) in pathManager.doReloadConf every live path is closed when its name no longer resolves, when the configuration cannot be updated in place, when it is in confsToRecreate, or when its capture groups changed - captureGroupsEqual is decided to be an exact equality on the groups (abstract interpretation of all its paths over the bounds of len(matches): true only if both sides have no groups or slices.Equal over m[1:] said so, false only if exactly one side has groups), is applied to pa.matches and the newly resolved groups, and its negative outcome closes the path; a path moved to another configuration gets confName updated before the reload is sent; the capture groups returned by FindPathConf for the new configuration are used (not discarded); pm.pathConfs is replaced before missing static paths are created; every static configuration without a live path is created. It does not decide reconciliation over arbitrary reload histories, nor which parameters the external camera process honours.",
+		Note:      "trusted: conf.FindPathConf (C14), conf.Path.Equal; the rpicamera consumer exists only in the linux/arm build configuration and is analysed there"})
 	addMutants(
 		Mutant{"C15", "hot-field-without-consumer", "internal/core/path_manager.go",
 			"	clone.Forward = newPathConf.Forward\n", "	clone.Forward = newPathConf.Forward\n	clone.MaxReaders = newPathConf.MaxReaders\n", "C15.hot_fields"},
